@@ -278,6 +278,7 @@ func intents(args []string) {
 	out := fs.String("out", "", "trace file (ndjson)")
 	gamma := fs.String("gamma", "g0", "default gamma variant")
 	noSync := fs.Bool("no-env-sync", false, "do not play the device's sync after each step")
+	enc := fs.Bool("encodings", false, "render every change in all southbound encodings")
 	fs.Parse(args)
 	w, err := env.NewWorld(*gamma, "")
 	if err != nil {
@@ -294,7 +295,7 @@ func intents(args []string) {
 		die(err)
 	}
 	bw := bufio.NewWriterSize(of, 1<<20)
-	r := &drive.Runner{W: w, Out: bw, NoEnvSync: *noSync}
+	r := &drive.Runner{W: w, Out: bw, NoEnvSync: *noSync, Encodings: *enc}
 	sc := bufio.NewScanner(f)
 	sc.Buffer(make([]byte, 1<<20), 1<<26)
 	n := 0
